@@ -49,6 +49,30 @@ sys.exit(0 if a <= b else 1)
 '''
 
 
+SCRIPT_HISTORY = '''import sys, athlib, decimal
+k = {k}
+o = {o}
+h = {h}
+def call(perf):
+    return CALL
+def prime(h):
+    return PRIME
+def mark(k):
+    return MARK
+first, second = (k, k + 1) if o == 0 else (k + 1, k)
+x = call(mark(first))
+try:
+    prime(h)
+except Exception:
+    pass
+y = call(mark(second))
+a, b = (x, y) if o == 0 else (y, x)
+ok = isinstance(a, int) and isinstance(b, int) and ORDER
+print(LABEL, 'marks', mark(k), mark(k + 1), '->', a, b, '(the mark', mark(second), 'scored after another call for the same row with h =', repr(h), ')')
+sys.exit(0 if ok else 1)
+'''
+
+
 def grid(k, denom):
     return SymFloat(floatmodel.rnd(z3.ToReal(k.term) / denom))
 
@@ -61,14 +85,15 @@ def term_of(p):
     return z3.IntVal(p)
 
 
-def make_job_scripts(call_src, mark_src, better, lo, hi, label):
+def make_job_scripts(call_src, mark_src, better, lo, hi, label, prime_src=None):
     order = 'b >= a' if better == 'high' else 'a >= b'
     bounds = '%s <= a <= %s and %s <= b <= %s' % (lo, hi if hi is not None else 10 ** 9, lo, hi if hi is not None else 10 ** 9)
     s = SCRIPT.replace('CALL', call_src).replace('MARK', mark_src).replace('ORDER', order).replace('BOUNDS', bounds).replace('LABEL', repr(label))
     return {'mono': s, 'bounds': s, 'raises': s.replace('a, b = call(mark(k)), call(mark(k + 1))',
             'try:\n    a, b = call(mark(k)), call(mark(k + 1))\nexcept Exception as e:\n    print(%r, "raised", repr(e)); sys.exit(1)' % label),
             'unexpected-exception': 'import sys\nsys.exit(0)\n',
-            'manual': SCRIPT_MANUAL.replace('CALL', call_src).replace('LABEL', repr(label))}
+            'manual': SCRIPT_MANUAL.replace('CALL', call_src).replace('LABEL', repr(label)),
+            'mono-history': SCRIPT_HISTORY.replace('CALL', call_src).replace('PRIME', prime_src or call_src).replace('MARK', mark_src).replace('ORDER', order).replace('LABEL', repr(label))}
 
 
 def body_mono(callf, markf, kmin, kmax, better, lo, hi):
@@ -93,6 +118,34 @@ def body_mono(callf, markf, kmin, kmax, better, lo, hi):
             b += [t1 <= hi, t2 <= hi]
         eng.check(z3.And(b), 'bounds')
         return {'inputs': {'k': k}, 'observe': []}
+    return body
+
+
+def body_history(callf, markf, kmin, kmax, better, primef):
+    """order between two adjacent marks must also hold when another call for the same row happens between the two scorings (a calculator
+    object kept per event, a coefficient row edited in place ...): one mark is scored, primef(R) makes the other call, the other mark is
+    scored; both orders"""
+    def body(R):
+        eng = E.cur()
+        k = symint('k', kmin, kmax - 1)
+        o = eng.choose(2, 'order')
+        ins = {'k': k, 'o': o, 'h': None}
+        R.partial = {'inputs': ins}
+        try:
+            eng.r_copy = 1 if o == 0 else 2
+            x = callf(markf(k if o == 0 else k + 1))
+            eng.r_copy = 0
+            ins['h'] = primef(R, k)
+            eng.r_copy = 2 if o == 0 else 1
+            y = callf(markf(k + 1 if o == 0 else k))
+            eng.r_copy = 0
+        except hc.PathFail:
+            raise
+        except Exception as e:
+            raise hc.PathFail('raises', '%s: %s' % (type(e).__name__, str(e)[:80]))
+        t1, t2 = (term_of(x), term_of(y)) if o == 0 else (term_of(y), term_of(x))
+        eng.check(t2 >= t1 if better == 'high' else t1 >= t2, 'mono-history')
+        return {'inputs': ins, 'observe': []}
     return body
 
 
@@ -139,6 +192,8 @@ def build_jobs(athlib, quick):
                 except ValueError:
                     continue        # no masters factor for this event: score() has nothing to adjust with
             jobs.append(('athlon', (g, ev, age), 0, kmax, 100, 'high' if field else 'low', 0, None))
+            if not age:
+                jobs.append(('athlon-history', (g, ev, None), 0, kmax, 100, 'high' if field else 'low', 0, None))
             if ev == '800' and g == 'M' and not age:
                 jobs.append(('athlon-esaa', (g, ev, None), 0, kmax, 100, 'low', 0, None))
     hs = sys.modules['athlib.hungarian_score']
@@ -169,6 +224,7 @@ def build_jobs(athlib, quick):
                     jobs.append(('tyrving', (g, age, ev), 1, kmax, 100, 'low', 0, None))
                     if dist <= 400 and not (quick and age != sel[0]):
                         jobs.append(('tyrving-manual', (g, age, ev), 10, int(base * 10 * 2), 10, 'low', 0, None))
+                        jobs.append(('tyrving-history', (g, age, ev), 100, int(base * 100 * 2), 100, 'low', 0, None))
                 else:
                     jobs.append(('tyrving', (g, age, ev), 0, 12000, 100, 'high', 0, None))
     qk = sys.modules['athlib.qkids_score']
@@ -208,6 +264,10 @@ def _flat(x):
 
 def call_of(system, params):
     athlib = hc._athlib
+    if system == 'athlon-history':
+        g, ev, age = params
+        f = sys.modules['athlib.athlon_score'].score
+        return (lambda p: f(g, ev, p)), 'athlib.athlon_score(%r, %r, perf)' % (g, ev)
     if system in ('athlon', 'athlon-esaa'):
         g, ev, age = params
         f = sys.modules['athlib.athlon_score'].score
@@ -217,7 +277,7 @@ def call_of(system, params):
     if system in ('hungarian', 'hungarian-int'):
         f = sys.modules['athlib.hungarian_score'].score
         return (lambda p: f(params[0], params[1], params[2], p)), 'athlib.hungarian_score(%r, %r, %r, perf)' % params
-    if system in ('tyrving', 'tyrving-manual'):
+    if system in ('tyrving', 'tyrving-manual', 'tyrving-history'):
         f = sys.modules['athlib.tyrving_score'].tyrving_score
         return (lambda p: f(params[0], params[1], params[2], p)), 'athlib.tyrving_score(%r, %r, %r, perf)' % params
     if system == 'qkids':
@@ -247,11 +307,42 @@ def worker(job):
     else:
         markf = lambda k: grid(k, denom)
         mark_src = 'k / %d' % denom
-    scripts = make_job_scripts(call_src, mark_src, better, lo, hi, label)
+    prime_src = primef = None
+    if system == 'tyrving-history':
+        # the other call: the same event scored from a one-decimal text (hand-timed by Tyrving's convention), any time near the mark
+        # (a concrete text: only the state the call leaves matters here, its value is the subject of the 'manual' clause)
+        def primef(R, k):
+            eng = E.cur()
+            c = eng.choose(2, 'hand')
+            h = ['%.1f' % (kmax / 200.0), '%d' % (kmax // 200)][c]
+            try:
+                callf(h)
+            except Exception:
+                pass
+            return h
+        prime_src = call_src.replace('perf', 'h')
+    elif system == 'athlon-history':
+        # the other call: the same event scored with the options the function has (a masters age, the ESAA table), any mark
+        g_, ev_, _ = params
+        fs = sys.modules['athlib.athlon_score'].score
+
+        def primef(R, k):
+            eng = E.cur()
+            c = eng.choose(3, 'opt')
+            age, esaa = [(45, False), (None, True), (62, True)][c]
+            try:
+                fs(g_, ev_, kmax / 200.0, age, esaa=esaa)       # a concrete mark: only the state the call leaves matters
+            except Exception:
+                pass
+            return (age, esaa)
+        prime_src = 'athlib.athlon_score(%r, %r, %r, h[0], esaa=h[1])' % (g_, ev_, kmax / 200.0)
+    scripts = make_job_scripts(call_src, mark_src, better, lo, hi, label, prime_src)
     R = hc.Runner(res, plain(), call_src.split('(')[0], scripts, max_paths=60000, deadline=time.time() + 600, r_axioms=('mono', 'paired', 'err'))
     try:
         if system == 'tyrving-manual':
             R.explore(body_manual(callf, kmin, kmax), label)
+        elif system.endswith('-history'):
+            R.explore(body_history(callf, markf, kmin, kmax, better, primef), label)
         else:
             R.explore(body_mono(callf, markf, kmin, kmax, better, lo, hi), label)
     except E.Budget as e:
@@ -280,6 +371,8 @@ def run(chk, only=None):
                   'athlon_ages': 'no age + bands %s' % ('35, 70, 112' if quick else '30..115 in fives, 37, 118'),
                   'tyrving_ages': 'youngest and oldest tabulated age per event' if quick else 'every tabulated age',
                   'hungarian_timed': 'up to and beyond the zero point of the parabola (beyond it the score is 0)'}
+    chk.bounds['history'] = ('Tyrving races up to 400 m and every combined-events row: one mark scored, one other call for the same row (a one-decimal or whole-second, hand-timed '
+                             'text resp. the masters-age / ESAA options, at one concrete mark), then the adjacent mark scored - the order clause must still hold, both orders')
     chk.outside = ['last-bit behaviour of libm pow (order through pow is assumed monotone)', 'marks given as text (C11) except the Tyrving hand-timing clause',
                    'non-adjacent pairs are covered by transitivity only']
     print('C05: %d rows' % len(jobs), flush=True)
